@@ -66,9 +66,45 @@ def checkC01 (input : Text) (obs : String) : Option String :=
     | _, .panic m => some ("panic " ++ m)
     | _, .other s => some ("unreadable-observation " ++ s)
 
+/-! ### C19 -/
+
+def sizeUnitOf : String → Option Nat
+  | "Byte" => some 1 | "Word" => some 2 | "Block" => some 512 | "KiloByte" => some (2^10)
+  | "MegaByte" => some (2^20) | "GigaByte" => some (2^30) | "TeraByte" => some (2^40) | _ => none
+
+def timeUnitOf : String → Option Nat
+  | "Second" => some 1 | "Minute" => some 60 | "Hour" => some 3600 | "Day" => some 86400 | _ => none
+
+/-- C19 on the implementation.  `hasAction`/`complexFrames` are the oracle, proved equivalent to
+    `Spec.ContainsAction`/`Spec.NeedsFraming` (Theorems/C19). -/
+def checkC19 (req : List String) (obs : String) : Option String :=
+  match req with
+  | "T" :: _ :: _ :: _ :: treeToks =>
+    match (Sx.parse (" ".intercalate treeToks)).bind dExpr with
+    | none => none
+    | some e =>
+      let want := "Q " ++ (if e.hasAction then "1" else "0") ++ " " ++ (if e.complexFrames then "1" else "0")
+      let got := (splitBar obs).1
+      if got = want then none else some s!"helpers-disagree-with-tree want=[{want}] got=[{got}]"
+  | ["U", "S", v, n] =>
+    match sizeUnitOf v, obs.splitOn " " with
+    | some u, ["US", m, b] =>
+      if m ≠ toString u then some s!"wrong-size-unit {v} {m}"
+      else if n.toNat! * u < 2^64 && b ≠ toString (n.toNat! * u) then some s!"wrong-byte-size {v} {n} {b}"
+      else none
+    | _, _ => some "unreadable-unit-observation"
+  | ["U", "T", v, _] =>
+    match timeUnitOf v, obs.splitOn " " with
+    | some u, ["UT", m] => if m = toString u then none else some s!"wrong-time-unit {v} {m}"
+    | _, _ => some "unreadable-unit-observation"
+  | _ => none
+
+def stripAnnot (req : List String) : List String := req.filter (fun p => !p.startsWith "#")
+
 def propCheck (prop : String) (req : List String) (obs : String) : Option String :=
   match prop, req with
   | "C01", "P" :: hx :: _ => (textOfHex hx).bind fun input => checkC01 input obs
+  | "C19", _ => checkC19 (stripAnnot req) obs
   | _, _ => none
 
 end FV
